@@ -405,8 +405,13 @@ class Handler(object):
         self.calls = []
         self.down = set(down)
 
+    delay = 0.0
+
     def __call__(self, uri):
         self.calls.append(uri)
+        if self.delay:
+            import time
+            time.sleep(self.delay)      # widens the window in which two threads are fetching at once (C18)
         u = ouri.defrag(uri)[0]
         if u in self.case["docs"] and self.case["via"].get(u) == "handler" and u not in self.down:
             return copy.deepcopy(self.case["docs"][u])
